@@ -1,12 +1,15 @@
 package e2e
 
 import (
-	"sort"
-	"sync"
+	p4 "github.com/p4lang/p4runtime/go/p4/v1"
+	"google.golang.org/grpc/codes"
 	"net"
 	"regexp"
+	"sort"
 	"strings"
+	"sync"
 	"time"
+	"verif/harness/internal/fakep4"
 
 	"github.com/google/gopacket"
 	"github.com/google/gopacket/layers"
@@ -201,12 +204,26 @@ func (w *World) exchange(p *pfcpx.Peer, kind string, req map[string]interface{},
 		w.armP4Fault()
 	}
 
+	killAt := w.KillAtWrite
+	if killAt > 0 {
+		w.armKill(killAt)
+	}
+
 	_ = p.SendRaw(raw)
 
 	got := false
 	drops := 0
 
-	if expectResp {
+	if expectResp && killAt > 0 {
+		// the agent may die before it answers: do not sit out the whole response time-out
+		for dl := time.Now().Add(w.RespWait); !got && time.Now().Before(dl) && w.Agent.Alive(); {
+			got = p.WaitN(1, 15*time.Millisecond)
+		}
+
+		if !got {
+			got = p.WaitN(1, 30*time.Millisecond)
+		}
+	} else if expectResp {
 		got = p.WaitN(1, w.RespWait)
 
 		if !got && w.dropLogCount() > logMark && w.Agent != nil && w.Agent.Alive() {
@@ -241,6 +258,11 @@ func (w *World) exchange(p *pfcpx.Peer, kind string, req map[string]interface{},
 	}
 
 	ev := map[string]interface{}{"ev": "req", "kind": kind, "peer": p.Name, "req": req, "resps": resps}
+	if killAt > 0 {
+		w.disarmKill()
+		ev["killAt"], ev["killed"] = killAt, w.killHit
+	}
+
 	if w.P4 != nil {
 		w.LastRpcs = w.P4.RpcCount() - rpcs0
 		ev["rpcs"] = w.LastRpcs
@@ -276,7 +298,9 @@ func (w *World) exchange(p *pfcpx.Peer, kind string, req map[string]interface{},
 		w.Accepted++
 	}
 
-	w.CheckAlive()
+	if !(killAt > 0 && w.killHit) { // a process the harness killed did not die on its own
+		w.CheckAlive()
+	}
 
 	return ds
 }
@@ -1140,4 +1164,58 @@ func (w *World) Concurrently(fns []func()) {
 	}
 
 	w.CheckAlive()
+}
+
+// armKill makes the datapath server kill the agent at the k-th command / Write RPC from now.
+func (w *World) armKill(k int) {
+	w.killHit = false
+	a := w.Agent
+
+	if w.P4 != nil {
+		base := w.P4.RpcCount()
+		w.P4.SetFault(func(rpc, idx, n int, u *p4.Update) fakep4.Fault {
+			if idx == -1 && rpc-base == k && !w.killHit {
+				w.killHit = true
+				a.Kill()
+
+				return fakep4.Fault{Code: codes.Unavailable, RPC: true}
+			}
+
+			return fakep4.Fault{}
+		})
+
+		return
+	}
+
+	var mu sync.Mutex
+
+	cnt := 0
+	w.Bess.FaultFn = func(seq int, module, cmd string) fakebess.Fault {
+		mu.Lock()
+		cnt++
+		hit := cnt == k && !w.killHit
+
+		if hit {
+			w.killHit = true
+		}
+		mu.Unlock()
+
+		if hit {
+			a.Kill()
+			return fakebess.Fault{Fail: "killed"}
+		}
+
+		return fakebess.Fault{}
+	}
+}
+
+func (w *World) disarmKill() {
+	w.KillAtWrite = 0
+
+	if w.P4 != nil {
+		w.P4.SetFault(nil)
+		return
+	}
+
+	w.Bess.FaultFn = nil
 }
